@@ -59,7 +59,9 @@ def cases(draw, tier="quick"):
     if c["kind"] == "directory":
         member = st.one_of(st.sampled_from(BENIGN), st.sampled_from(HOSTILE),
                            st.sampled_from(HOSTILE).map(lambda n: n.rstrip("/") + "/"),      # hostile DIRECTORY entries
-                           st.sampled_from(["sub/inner.txt", "sub/", "sub", "a/b/c", "a", "a/b", "dir1/", "x.tmp", "%SIBLING%", "%SIBLING%"]))
+                           st.sampled_from(["sub/inner.txt", "sub/", "sub", "a/b/c", "a", "a/b", "dir1/", "x.tmp", "%SIBLING%", "%SIBLING%",
+                                            # escapes that start below a top-level entry an earlier member has used
+                                            "sub/../%SIBLING%", "a/b/../../%SIBLING%", "sub/../../%DECOY_CWD_NAME%", "a/../%SIBLING%"]))
         c["members"] = draw(st.lists(st.tuples(member, st.sampled_from([0, 0o644, 0o755, 0o40755, 0o100600])).map(list),
                                      max_size=5))
         if draw(st.integers(0, 5)) == 0:
@@ -212,7 +214,7 @@ def base_args():
 
 
 def subst(name, base, cwd):
-    return (name.replace("%DECOY_BASE%", os.path.join(base, "decoy_base.txt"))
+    return (name.replace("%DECOY_CWD_NAME%", "decoy_cwd.txt").replace("%DECOY_BASE%", os.path.join(base, "decoy_base.txt"))
             .replace("%DECOY_OUTER%", os.path.join(base, "outer", "decoy_outer.txt"))
             .replace("%DECOY_CWD%", os.path.join(cwd, "decoy_cwd.txt"))
             .replace("%CWD%", cwd).replace("/etc/passwd_verif", os.path.join(base, "etc_passwd_verif")))
